@@ -5,7 +5,7 @@
    target source is compared with the implementation (mirror oracle). *)
 From Coq Require Import List ZArith Bool.
 From EosV Require Import lib.AList model.World model.Engine model.Ops proofs.Misc_p proofs.Status_p proofs.Frame_p
-     proofs.Owner_p proofs.Cinv_p proofs.Runs_p.
+     proofs.Owner_p proofs.Cinv_p proofs.Runs_p model.Wf proofs.RunsC_p proofs.RunsD_p.
 Import ListNotations.
 
 Theorem C14_same_source_noop : forall s x new y,
@@ -34,8 +34,24 @@ Theorem C14_switch_moves_nothing : forall s x new,
   J (fst s) -> forall q, members (fst (fst (source_set_op s x new))) q = members (fst s) q.
 Proof. intros s x new Js. exact (proj2 (source_set_op_MK s x new Js)). Qed.
 
+(* ... and the same for charges and autocharges in flat worlds: KJ is the invariant above together with
+   "every charge / autocharge runs the table's set for its holder's state under the source it is loaded from,
+   holds nothing, is listed by its holder" (proofs/RunsC_p.v). The hypothesis about the moment between
+   unloading and reloading (every fit of the solar system lists its items once and they are unloaded) is the
+   OSource clause of op_okb3, evaluated by the driver on every generated switch. *)
+Theorem C14_switch_reestablishes_invariants_for_charges : forall s x new,
+  KJ (fst s) ->
+  (forall y, get_ss (fst s) x = Some y -> new <> None ->
+     let m := fst (src_mid s x y new) in
+     NoDup (flat_map (fit_list m) (ss_fit_list m x)) /\
+     forall j, In j (flat_map (fit_list m) (ss_fit_list m x)) -> dir_unloaded m j) ->
+  w_err (fst (fst (source_set_op s x new))) = None ->
+  KJ (fst (fst (source_set_op s x new))).
+Proof. exact source_set_op_KJ. Qed.
+
 Print Assumptions C14_same_source_noop.
 Print Assumptions C14_switch_reestablishes_invariants.
 Print Assumptions C14_switch_moves_nothing.
 Print Assumptions C14_unload_load_keep_structure.
 Print Assumptions C14_unloaded_runs_nothing.
+Print Assumptions C14_switch_reestablishes_invariants_for_charges.
